@@ -22,7 +22,7 @@ func (c16) ID() string { return "C16" }
 
 func (c16) Budget(tier string) int {
 	if tier == "thorough" {
-		return 40000
+		return 600000
 	}
 	return 12100
 }
